@@ -6,7 +6,10 @@ BITS = {"Int64": 64, "UInt64": 64, "Int32": 32, "UInt32": 32, "Int16": 16, "UInt
 
 def scalar_bytes(rng, name):
     if name.startswith("Float"):
-        x = rng.choice([0.0, -0.0, 1.5, -2.25, 3.0e10, float("inf"), 1e-20, 42.0])
+        x = rng.choice([0.0, -0.0, 1.5, -2.25, 3.0e10, float("inf"), 1e-20, 42.0, "subnormal", "subnormal"])
+        if x == "subnormal":          # the smallest magnitudes of the type (bit patterns 1 and 0x8000..3)
+            n = len(struct.pack(FMT[name], 0.0))
+            return rng.choice([[1] + [0] * (n - 1), [3] + [0] * (n - 2) + [0x80], [0xFF, 0xFF] + [0] * (n - 2)])
         return list(struct.pack(FMT[name], x))
     bits = BITS[name]
     lo, hi = (0, 2 ** bits - 1) if name.startswith("U") else (-2 ** (bits - 1), 2 ** (bits - 1) - 1)
